@@ -486,6 +486,104 @@ def flow_with_gates(func, gates, null_vars=(), cap=512):
 
 
 # --------------------------------------------------------------------------
+# destination-size rules (bounded copies into fixed arrays)
+# --------------------------------------------------------------------------
+
+import re as _re
+
+# callee -> (destination argument index, size argument index)
+COPY_FUNCS = {
+    "ares_strcpy": (0, 2), "ares_buf_tag_fetch_string": (1, 2), "ares_inet_ntop": (2, 3), "memcpy": (0, 2), "memset": (0, 2), "memmove": (0, 2),
+    "snprintf": (0, 1), "ares_buf_fetch_bytes": (1, 2), "buf_fetch_string": (1, 2), "ares_buf_hexstr": (1, 2), "strncpy": (0, 2),
+    "ares_buf_tag_fetch_bytes": (1, 2), "ares_buf_parse_hexstr": (1, 2), "recv": (1, 2), "read": (1, 2), "ares_rand_bytes": (1, 2),
+    "ares_strlower": (0, 0), "if_indextoname": (1, 1), "ares_if_indextoname": (1, 2), "ares_inet_net_pton": (2, 3),
+}
+
+
+def array_bytes(node, prog=None):
+    """size in bytes of the array object an lvalue node denotes, or None"""
+    n = strip(node)
+    if n is None:
+        return None
+    if n.get("k") == "un" and n["op"] == "&":
+        n = strip(n["e"])
+        if n.get("k") == "idx" and const_val(n["i"]) == 0:
+            n = strip(n["b"])
+    m = _re.match(r"^(const )?(unsigned char|char|signed char)\[(\d+)\]$", n.get("ty") or "")
+    if m:
+        return int(m.group(3))
+    return None
+
+
+def dst_size_findings(prog, funcs):
+    """[(func, ln, key, ok, msg)] for every bounded copy whose destination is a fixed-size char array"""
+    out = []
+    for f in funcs:
+        mf = None
+        for b, i, c in f.calls():
+            spec = COPY_FUNCS.get(c.get("callee"))
+            if not spec:
+                continue
+            di, si = spec
+            args = c.get("args", [])
+            if di >= len(args) or si >= len(args) or di == si:
+                continue
+            N = array_bytes(args[di])
+            if N is None:
+                continue
+            sz = strip(args[si])
+            key = "fn=%s copy=%s dst=%s" % (f.name, c["callee"], render(args[di]))
+            if sz.get("k") == "un" and sz["op"] == "&":
+                # in/out length variable: its value at the call
+                lv = path(sz["e"])
+                v = None
+                for bb, ii, el in f.elements():
+                    if el["k"] == "decl":
+                        for vv in el["vars"]:
+                            if vv["n"] == lv and vv.get("init") is not None:
+                                v = const_val(vv["init"])
+                    elif el["k"] == "asg" and path(el["e"]["l"]) == lv and el["e"]["op"] == "=":
+                        v = const_val(el["e"]["r"])
+                sz = {"v": v} if v is not None else sz
+            if sz.get("v") is not None:
+                ok = sz["v"] <= N
+                out.append((f, c["ln"], key, ok, "copy of up to %s bytes into a %d-byte array" % (sz["v"], N)))
+            else:
+                if mf is None:
+                    mf = MustFacts(f, track_calls=False)
+                lo, hi = interval(args[si], mf.cond_facts_at(b, i), prog, f, point=(b.id, i))
+                if hi <= N:
+                    out.append((f, c["ln"], key, True, "length in [%s,%s] <= %d" % (lo, hi, N)))
+                else:
+                    out.append((f, c["ln"], key, None, "length '%s' not bounded by the destination size %d" % (render(args[si]), N)))
+    return out
+
+
+def idx_store_findings(prog, funcs):
+    out = []
+    for f in funcs:
+        mf = None
+        for b, i, el in f.elements():
+            if el["k"] != "asg":
+                continue
+            l = strip(el["e"]["l"])
+            if l.get("k") != "idx":
+                continue
+            N = array_bytes(l["b"])
+            if N is None:
+                continue
+            key = "fn=%s store=%s" % (f.name, render(l))
+            if l["i"].get("v") is not None:
+                out.append((f, el["ln"], key, 0 <= l["i"]["v"] < N, "constant index %s, array of %d" % (l["i"]["v"], N)))
+            else:
+                if mf is None:
+                    mf = MustFacts(f, track_calls=False)
+                lo, hi = interval(l["i"], mf.cond_facts_at(b, i), prog, f, point=(b.id, i))
+                out.append((f, el["ln"], key, True if (lo >= 0 and hi < N) else None, "index in [%s,%s], array of %d" % (lo, hi, N)))
+    return out
+
+
+# --------------------------------------------------------------------------
 # tiny interval evaluation of an expression at a program point (for shift / index bounds)
 # --------------------------------------------------------------------------
 
@@ -534,7 +632,7 @@ def interval(e, facts=(), prog=None, func=None, depth=0, point=None):
             for a, b, o in ((l, r, op), (r, l, SWAP.get(op))):
                 if o is None or path(a) != p:
                     continue
-                bl, bh = interval(b, (), prog, func, depth + 1) if depth < 3 else (-INF, INF)
+                bl, bh = interval(b, [x for x in facts if x[0] is not c], prog, func, depth + 1) if depth < 3 else (-INF, INF)
                 if o == "<" and bh != INF:
                     hi = min(hi, bh - 1)
                 elif o == "<=" and bh != INF:
@@ -707,7 +805,7 @@ class ValueSets:
     """
 
     def __init__(self, prog, func, names=None, summaries=None, on_el=None, on_edge=None, init_extra=None, cap=512,
-                 extra_domains=None, call_assign=None, call_value=None):
+                 extra_domains=None, call_assign=None, call_value=None, init_vals=None):
         self.prog, self.f = prog, func
         self.call_assign = call_assign
         self.call_value = call_value
@@ -733,7 +831,7 @@ class ValueSets:
                 self.zero[n] = frozenset(it["n"] for it in en["items"] if it["v"] == 0)
             elif n in dom:
                 self.zero[n] = frozenset(x for x in dom[n] if prog.enumconst.get(x, (None, 1))[1] == 0)
-        init = (tuple(dom[n] for n in self.names), init_extra)
+        init = (tuple((frozenset(init_vals[n]) & dom[n]) if (init_vals and n in init_vals and frozenset(init_vals[n]) & dom[n]) else dom[n] for n in self.names), init_extra)
         self.at = forward_states(func, init, self._transfer, self._refine, cap=cap, switch_refine=self._switch)
 
     # ---- evaluation ----
@@ -931,14 +1029,62 @@ def func_var_type(func, name):
 
 
 class Summaries:
-    """memoised return value sets of functions returning an enum type."""
+    """memoised return value sets of functions returning an enum type.
+    ignore_defensive=True drops the values returned only on paths that pass a `pointer-parameter == NULL` edge
+    (DefensiveCoding returns), i.e. assumes callers pass valid pointers."""
 
-    def __init__(self, prog):
+    def __init__(self, prog, ignore_defensive=False):
         self.prog = prog
         self.memo = {}
         self.active = set()
+        self.ignore_defensive = ignore_defensive
+        self.pruned = 0
 
-    def return_set(self, func):
+    def return_set(self, func, spec=None):
+        """spec: tuple of (param name, enum constant) for enum-typed parameters known at the call site"""
+        mkey = (func.key, spec) if spec else func.key
+        if mkey in self.memo:
+            return self.memo[mkey]
+        if spec:
+            res = self._compute(func, dict((k, [v]) for k, v in spec))
+            self.memo[mkey] = res
+            return res
+        return self._return_set_plain(func)
+
+    def _compute(self, func, init_vals):
+        en = self.prog.enums.get(func.ret)
+        if en is None:
+            return None
+        full = frozenset(it["n"] for it in en["items"])
+        akey = (func.key, tuple(sorted((k, tuple(v)) for k, v in init_vals.items())))
+        if akey in self.active:
+            return full
+        self.active.add(akey)
+        try:
+            pn = {p["n"] for p in func.params if "*" in p["ty"]}
+
+            def on_edge(extra, blk, cond, pol, get):
+                for cc, p in atoms(cond, pol):
+                    op, l, rr = norm_cmp(cc, p)
+                    if is_var(l) and strip(l)["n"] in pn and ((op == "==" and rr is not None and is_null(rr)) or op == "false"):
+                        return True
+                return extra
+            vs = ValueSets(self.prog, func, summaries=self, cap=2048, on_edge=on_edge if self.ignore_defensive else None, init_extra=False,
+                           init_vals=init_vals)
+            out = set()
+            for b, i, el in func.returns():
+                for st in vs.states_at(b, i):
+                    if self.ignore_defensive and st[1]:
+                        continue
+                    s2 = vs.eval(el.get("e"), st[0])
+                    out |= (full if s2 is None else s2)
+            return frozenset(out) if out else full
+        except AnalysisBroken:
+            return full
+        finally:
+            self.active.discard(akey)
+
+    def _return_set_plain(self, func):
         if func.key in self.memo:
             return self.memo[func.key]
         en = self.prog.enums.get(func.ret)
@@ -950,10 +1096,21 @@ class Summaries:
             return full
         self.active.add(func.key)
         try:
-            vs = ValueSets(self.prog, func, summaries=self, cap=2048)
+            pn = {p["n"] for p in func.params if "*" in p["ty"]}
+
+            def on_edge(extra, blk, cond, pol, get):
+                for cc, p in atoms(cond, pol):
+                    op, l, rr = norm_cmp(cc, p)
+                    if is_var(l) and strip(l)["n"] in pn and ((op == "==" and rr is not None and is_null(rr)) or op == "false"):
+                        return True
+                return extra
+            vs = ValueSets(self.prog, func, summaries=self, cap=2048, on_edge=on_edge if self.ignore_defensive else None, init_extra=False)
             out = set()
             for b, i, el in func.returns():
                 for st in vs.states_at(b, i):
+                    if self.ignore_defensive and st[1]:
+                        self.pruned += 1
+                        continue
                     s = vs.eval(el.get("e"), st[0])
                     if s is None:
                         out |= full
@@ -971,7 +1128,15 @@ class Summaries:
         t = self.prog.resolve(caller, callnode)
         if t is None:
             return None
-        return self.return_set(t)
+        spec = []
+        full = caller.call_by_id(callnode.get("id")) if callnode.get("ref") else None
+        args = (full[2] if full else callnode).get("args", [])
+        for k, a in enumerate(args):
+            if k < len(t.params) and self.prog.enums.get(t.params[k]["ty"]) is not None:
+                nm = name_of_const(a)
+                if nm and strip(a).get("k") == "enum":
+                    spec.append((t.params[k]["n"], nm))
+        return self.return_set(t, tuple(spec) if spec else None)
 
 
 def guard_delta(mf, ref, site):
